@@ -157,3 +157,34 @@ Proof.
   revert H0. generalize (init_world counts). induction chains as [|c r IH]; intros w H; cbn [fold_left]; [exact H|].
   apply IH; [intros c' Hc'; apply Hc; right; exact Hc'|]. apply add_chain_short; [apply Hc; left; reflexivity|exact H].
 Qed.
+
+(* ---- module identities ---- *)
+(* The model names a module by its index; the code by its ModuleId.  Ids come
+   from a wrapping 16-bit counter: whatever its position, the (at most 2^16)
+   modules of one simulation get pairwise distinct ids.  The runner reports
+   the same fact about the real ids for every script. *)
+Lemma gen_ids_from_NoDup p : forall n a,
+  (N.of_nat (a + n) <= ID_SPACE)%N ->
+  NoDup (map (fun i => ((p + N.of_nat i) mod ID_SPACE)%N) (seq a n)).
+Proof.
+  induction n as [|n IH]; intros a H; cbn [seq map]; [constructor|].
+  constructor; [|apply IH; lia].
+  intros Hin. apply in_map_iff in Hin. destruct Hin as [j [E Hj]]. apply in_seq in Hj.
+  unfold ID_SPACE in *.
+  pose proof (N.div_mod (p + N.of_nat j) 65536 ltac:(discriminate)) as D1.
+  pose proof (N.div_mod (p + N.of_nat a) 65536 ltac:(discriminate)) as D2.
+  rewrite E in D1. revert D1 D2.
+  generalize ((p + N.of_nat j) / 65536)%N as q1, ((p + N.of_nat a) / 65536)%N as q2,
+             ((p + N.of_nat a) mod 65536)%N as r.
+  intros q1 q2 r D1 D2. lia.
+Qed.
+
+Theorem gen_ids_NoDup p n : (N.of_nat n <= ID_SPACE)%N -> NoDup (gen_ids p n).
+Proof. intros H. apply gen_ids_from_NoDup. exact H. Qed.
+
+Lemma distinctb_true l : NoDup l -> distinctb l = true.
+Proof.
+  induction 1 as [|x l Hx _ IH]; cbn [distinctb]; [reflexivity|]. rewrite IH, andb_true_r.
+  apply negb_true_iff. destruct (existsb (N.eqb x) l) eqn:E; [|reflexivity].
+  apply existsb_exists in E. destruct E as [y [Hy Ey]]. apply N.eqb_eq in Ey. subst. contradiction.
+Qed.
